@@ -29,8 +29,14 @@ package dispatch
 // done: the last value Complete() returned (completion is monotone); obsRead / obsWrite: the last
 // values LastReadTime() / LastWriteTime() returned.
 //@ ghost field Dispatcher.done bool
+//@ ghost field Dispatcher.name string
 //@ ghost field Dispatcher.obsRead time.Time
 //@ ghost field Dispatcher.obsWrite time.Time
+
+// The name (digest hex) of the blob the dispatcher downloads.
+//@ func Dispatcher.Digest
+//@   trusted
+//@   ensures result.hex == d.name
 
 //@ func Dispatcher.Complete
 //@   trusted
